@@ -673,6 +673,11 @@ def gen_op(rng, w, stats):
             n, v = rng.choice(live_lk)
             return ["EnterFarm", u, rng.choice([1, 2]), [2, n, min(v, 10 ** 6)], []]
         roll = rng.random() * 0.90 + 0.10
+    if (any(v > 0 for v in s["hlp"].values()) or any(v > 0 for v in s["hfm"].values())) and not w.__dict__.get("bigjump") and rng.random() < 0.05:
+        # jump past the unlock epoch of locked tokens that are at work through the proxy: a later remove / exit that burns
+        # locked tokens must then REFUND the negative energy the expired tokens accumulated (update_after_unlock_any)
+        w.bigjump = True
+        return ["Time", 5, rng.choice([361, 400, 725, 1500])]
     if roll < 0.15:
         return ["Time", rng.choice([1, 5, 20, 100]), rng.choice([0, 1, 1, 2, 7, 7, 8, 40, 400 if rng.random() < 0.3 else 5])]
     if roll < 0.22:
